@@ -1,1 +1,2 @@
 import CanopenProofs.C04
+import CanopenProofs.C05
